@@ -17,6 +17,7 @@ mod shape;
 mod singular;
 mod solver;
 mod stack;
+mod stroke;
 mod urdfx;
 mod util;
 mod yaml;
@@ -49,6 +50,7 @@ fn main() {
         ("replay", "urdf") => urdfx::replay(&args[3], &args[4]),
         ("replay", "rrt") => rrt::replay(&args[3], &args[4]),
         ("record", "rrtplan") => rrt::record(&args[3]),
+        ("record", "stroke") => stroke::record(&args[3]),
         ("record", "ik") => solver::record(&args[3], &args[4]),
         ("record", "follow") => solver::record_follow(&args[3]),
         _ => {
